@@ -132,6 +132,8 @@ def run(ck: Checker, prog: Program, tier: str):
     with ck.borrow(c04, "C18.R2+"):
         ck.guard(c04._r1_r3, ck, prog)
     ck.extra["calls_resolved"] = eng.calls_resolved
+    from .common import check_identity_comparisons as _cic
+    ck.guard(_cic, ck, prog, "C18.R1a", "C18")
 
 
 def _short(av) -> str:
